@@ -11,6 +11,7 @@ Directives (one per line, arguments shlex-style key=value):
   //@item file=.. kind=struct|enum name=N [keep=a,b,c] [flags=..]
   //@semi file=.. kind=const|static|type name=N [flags=..]
   //@carve file=.. [impl=..] fn=f from="regex" to="regex" [flags=..]
+  //@autofns file=.. [impl=..] [flags=..]   (slot for helper fns pulled in on demand, see engine.auto_extract)
 
 flags: nopub (strip visibility), deasync, droplog (remove log macro statements),
        keeppub.  Default for every directive: nopub.
@@ -27,6 +28,7 @@ class Extraction:
         self.spans = []   # dicts: selector, file, line, sha
         self.drops = []   # human-readable list of rewrites applied
         self.fns = []     # functions under contract / extracted
+        self.auto = {}    # (file, impl) -> [fn names] pulled in by //@autofns after a 'no method named' compile error
 
     def log_span(self, sel, src, pos, text):
         self.spans.append({'selector': sel, 'file': src.path.replace(self.repo + '/', ''),
@@ -77,7 +79,7 @@ def render(template_text, repo, ex):
             out.append(ln)
             i += 1
             continue
-        mo = re.match(r'//@(fn|item|semi|carve|errorcarrier)\s+(.*)$', st)
+        mo = re.match(r'//@(fn|item|semi|carve|errorcarrier|autofns)\s+(.*)$', st)
         if not mo:
             raise rsx.Unsupported('bad directive: ' + st)
         kind, rest = mo.group(1), mo.group(2)
@@ -99,7 +101,18 @@ def render(template_text, repo, ex):
         flags = set((a.get('flags') or '').split(',')) - {''}
         src = rsx.Src.load(repo + '/' + a['file'])
         indent = re.match(r'\s*', ln).group(0)
-        if kind == 'fn':
+        if kind == 'autofns':
+            # helper functions of the same impl that the extracted functions call but the template does
+            # not name (e.g. introduced by a refactor): pasted verbatim, on demand (engine retries after
+            # a `no method named X` / `cannot find function X` compile error)
+            for nm in ex.auto.get((a['file'], a.get('impl')), []):
+                fn = src.fn_item(nm, a.get('impl'))
+                sel = '%s::%s::%s (auto-extracted helper)' % (a['file'], a.get('impl', '-'), nm)
+                ex.log_span(sel, src, fn.s, fn.text)
+                ex.fns.append(sel)
+                ex.drop('helper fn %s auto-extracted (called by an extracted function, not named in the template)' % nm)
+                out.append(indent + _apply_flags(fn.header, flags, ex, nm) + _apply_flags(fn.body, flags, ex, nm))
+        elif kind == 'fn':
             fn = src.fn_item(a['name'], a.get('impl'))
             sel = '%s::%s::%s' % (a['file'], a.get('impl', '-'), a['name'])
             ex.log_span(sel, src, fn.s, fn.text)
